@@ -70,6 +70,8 @@ NoCmd == [s |-> 0, kind |-> "none", ty |-> 0, e |-> 0, d |-> 0, p |-> 0, st |-> 
 (* and it runs once per delivery, a user can only see which data each run shows.  The monitors therefore follow the *)
 (* DATA: when a run shows the data of another pending delivery to the same system, the two deliveries exchange      *)
 (* their data in the shadow (everything but target and status), and order (C12) is judged on the data's sequence.   *)
+F1Why == "F1: a polled reaction ran between another delivery's application and its start, and their data got mixed"
+F2Why == "F2: the entity world reactor ran for an entity that was despawned after the reaction was scheduled (EntityLocal::get panics there)"
 Pending == {"reached", "postponed", "replaying"}
 SwapData(m, a, b) ==
     LET ca == m.cmd[a]  cb == m.cmd[b]
@@ -249,6 +251,9 @@ OnIssue(m, o) ==
                     m1 == Chk(m0, o.ret = want, "C14", "resource set_if_neq returned the wrong old value")
                 IN IF o.ret # -1 THEN [m1 EXCEPT !.res = Put(@, op[2], op[3])] ELSE m1
          [] n = "ins" -> Chk(m0, (o.ret = 1) <=> (op[2] \in m.aliveE), "C14", "insert queued/skipped against entity liveness")
+         [] n = "setlocal" ->
+                LET t == Top(m)
+                IN IF o.ret = 1 /\ t.f = "cmd" /\ t.k \in DOMAIN m.cmd THEN [m0 EXCEPT !.elocal = Put(@, m.cmd[t.k].e, op[2])] ELSE m0
          [] OTHER -> m0
 
 (* number and kind of trigger dispatches the op must cause directly (C14, C01); -1 = not checked *)
@@ -503,17 +508,19 @@ OnRun(m, o) ==
         other == \E j \in DOMAIN m.cmd : j # t.k /\ m.cmd[j].s = c.s /\ m.cmd[j].sr = c.sr /\ c.sr # 0
                         /\ Len(ExpView(m.cmd[j])) > 0 /\ ExpView(m.cmd[j])[1] \in Elems(o.view)
         tainted == t.k \in m.taint
-        m4 == IF bad THEN V(m3, "C03", IF tainted THEN "F1: a polled reaction ran between another delivery's application and its start, and their data got mixed"
+        m4 == IF bad THEN V(m3, "C03", IF tainted THEN F1Why
                                        ELSE "a run did not see exactly the data of the event that caused it") ELSE m3
-        m5 == IF surplus THEN V(m4, "C04", IF tainted THEN "F1: a polled reaction ran between another delivery's application and its start, and their data got mixed"
+        m5 == IF surplus THEN V(m4, "C04", IF tainted THEN F1Why
                                            ELSE "a run saw event data that does not belong to it") ELSE m4
-        m6a == IF bad /\ other THEN V(m5, "C12", "a run saw the data of another delivery from the same sender") ELSE m5
-        m6 == Chk(m6a, ~OlderPostponed(mS, t.k), "C12", "a delivery was processed before an earlier one from the same run to the same system")
+        m6a == IF bad /\ other THEN V(m5, "C12", IF tainted THEN F1Why ELSE "a run saw the data of another delivery from the same sender") ELSE m5
+        m6 == Chk(m6a, ~OlderPostponed(mS, t.k), "C12", IF tainted THEN F1Why ELSE "a delivery was processed before an earlier one from the same run to the same system")
         m7 == IF \E x \in Elems(o.view) : x[1] = "se2" THEN V(m6, "C04", "a system event was taken twice") ELSE m6
         \* entity world reactor: local data of the reacting entity
         isEW == m.neworld > 0 /\ o.sys = EWSys(m)
         m8 == IF isEW /\ c.kind \in {"eev", "ereact"}
-              THEN Chk(m7, o.el = <<c.e, Get(m.elocal, c.e, 0)>>, "C16", "entity world reactor saw the wrong local data")
+              THEN IF c.e \notin m.aliveE
+                   THEN V2(m7, "C16", "C18", F2Why)
+                   ELSE Chk(m7, o.el = <<c.e, Get(m.elocal, c.e, 0)>>, "C16", "entity world reactor saw the wrong local data")
               ELSE m7
     IN m8
 
@@ -690,5 +697,7 @@ MonStep(m, o) ==
 
 MonSeq(m, s) == FoldSeq(MonStep, m, s)
 
-ViolOf(m, p) == { v \in m.viol : v[1] = p }
+(* violations of property p, not counting recorded findings (known_findings.json) *)
+KnownWhys == {F1Why, F2Why}
+ViolOf(m, p) == { v \in m.viol : v[1] = p /\ v[2] \notin KnownWhys }
 =============================================================================
